@@ -53,7 +53,7 @@ Section ListProofs.
       apply Forall_insert; [eapply HP; exact V|exact F].
     - inversion H as [[H1 H2]]. destruct (pop l _) as [[x l2]|] eqn:E; cbn in H1; [|discriminate].
       inversion H1; subst. eapply Forall_pop; eassumption.
-    - inversion H as [[H1 H2]]. destruct (remove Z.eqb l v) eqn:E; cbn in H1; [|discriminate]. inversion H1; subst.
+    - inversion H as [[H1 H2]]. destruct (remove py_eq l v) eqn:E; cbn in H1; [|discriminate]. inversion H1; subst.
       eapply Forall_remove; eassumption.
     - inversion H; subst. apply Forall_rev. exact F.
     - inversion H; subst. apply Forall_sort. exact F.
@@ -95,8 +95,8 @@ Section ListProofs.
       destruct (pop l _) as [[x l2]|] eqn:E; cbn in H1; [|discriminate]. inversion H1; subst.
       pose proof (pop_length l l' _ x E). lia.
     - inversion AN; subst. inversion H as [[H1 H2]].
-      destruct (remove Z.eqb l v) eqn:E; cbn in H1; [|discriminate]. inversion H1; subst.
-      pose proof (remove_length Z.eqb l l' v E). lia.
+      destruct (remove py_eq l v) eqn:E; cbn in H1; [|discriminate]. inversion H1; subst.
+      pose proof (remove_length py_eq l l' v E). lia.
     - inversion AN; subst. inversion H; subst. unfold zlen. rewrite rev_length. reflexivity.
     - inversion AN; subst. inversion H; subst. unfold zlen. rewrite sort_length. reflexivity.
     - inversion AN; subst. inversion H; subst. reflexivity.
